@@ -37,6 +37,62 @@ func runC20(c *Ctx) {
 	c20R4(c)
 	c20R5(c)
 	c20R6(c)
+	c20R7(c)
+}
+
+// c20R7: the wire category survives the round trip when the reason carries none (F23).
+func c20R7(c *Ctx) {
+	r := c.R.Rule("R7", "K3/K6 round trip of an unknown-reason error: in conduiterr.FromStatus, on the edges where the reason is not registered or is CodeUnknown's own reason, every exit has built the code from the wire status' code (st.Code())", 2)
+	fn := c.SSA(r, pConduiterr, "FromStatus")
+	lookup := c.Fn(r, pConduiterr, "LookupCode")
+	unknown := c.W.LookupObj(pConduiterr, "CodeUnknown")
+	grpcF := c.Field(r, pConduiterr, "Code", "grpcCode")
+	stCode := c.W.ExtMethod("google.golang.org/grpc/internal/status", "Status", "Code")
+	if stCode == nil {
+		stCode = c.W.ExtMethod("google.golang.org/grpc/status", "Status", "Code")
+	}
+	if fn == nil || lookup == nil || unknown == nil || grpcF == nil {
+		return
+	}
+	// stores of st.Code() into Code.grpcCode
+	g := kit.NewGates()
+	for _, st := range kit.FieldStores(fn, grpcF) {
+		if call, ok := st.Val.(*ssa.Call); ok {
+			if f := kit.CalleeOf(call.Common()); f != nil && f.Name() == "Code" && (stCode == nil || f == stCode) {
+				g.AddInstr(st, "grpcCode: st.Code()")
+			}
+		}
+	}
+	if g.Empty() {
+		c.R.Fail(r, "FromStatus: code built from the wire status", c.Pos(fn.Pos()), "no Code{grpcCode: st.Code()} construction found")
+		return
+	}
+	var edges []kit.Edge
+	for _, call := range kit.CallsTo(fn, Set(lookup)) {
+		// not registered
+		if ok := kit.ResultN(call, 1); ok != nil {
+			edges = append(edges, kit.CondEdges(ok, false)...)
+		}
+	}
+	nMiss := len(edges)
+	// code == CodeUnknown (struct comparison against the package-level value)
+	eq := kit.CmpEdges(fn, func(b *ssa.BinOp) (bool, bool) {
+		if isGlobalLoad(b.X, unknown) || isGlobalLoad(b.Y, unknown) {
+			switch b.Op {
+			case token.EQL:
+				return true, true
+			case token.NEQ:
+				return true, false
+			}
+		}
+		return false, false
+	})
+	c.R.Check(nMiss > 0, r, "FromStatus: unregistered reason falls back to the wire category", c.Pos(fn.Pos()), "ok", "no test of LookupCode's ok result", true)
+	c.R.Check(len(eq) > 0, r, "FromStatus: the unknown reason falls back to the wire category", c.Pos(fn.Pos()), "ok", "FromStatus no longer tests the looked-up code against CodeUnknown: an error sent as WithUnknownReason(err, category) decodes as Internal whatever its category was, so its exit code changes across the gRPC round trip", true)
+	for _, e := range append(edges, eq...) {
+		pass, _ := kit.AllExitsFromEdge(e, false, kit.ExitSpec{Gates: g})
+		c.R.Check(pass, r, "FromStatus: wire category kept on the no-registered-reason edge", c.Pos(fn.Pos()), "every exit builds the code from st.Code()", "an exit behind the unregistered/unknown-reason edge does not build the code from the wire status' code", true)
+	}
 }
 
 var errIface = types.Universe.Lookup("error").Type().Underlying().(*types.Interface)
